@@ -36,8 +36,31 @@ def run_matrix(run, name, binary=None):
         shutil.rmtree(tmp, ignore_errors=True)
 
 
+def run_concurrent(run):
+    cases = ['1 8 4000', '1 2 20000', '1 16 2000', '0 8 2000'] if run.tier == 'quick' else ['1 8 40000', '1 2 200000', '1 16 20000', '1 64 5000', '0 8 20000']
+    tmp = common.scratch_dir('c11c')
+    try:
+        common.write_lines(tmp + '/c', cases)
+        rc, out = common.run_impl('c11c', tmp + '/c', tmp + '/i', timeout=1800)
+        io = common.read_lines(tmp + '/i')
+        run.obligations += 1
+        if rc != 0 or len(io) != len(cases):
+            run.add_violation('harness-error', 'c11c rc=%s %s' % (rc, out[-1500:]), [out[-2000:]], no_input=True)
+            return
+        bad = [(c, o) for c, o in zip(cases, io) if len(o.split()) < 2 or o.split()[1] != '0']
+        for c, o in bad[:2]:
+            run.add_violation('oracle:c11/concurrent', 'under concurrent callers the reported location is not the calling statement: ' + o[:300], ['family c11c', 'case ' + c, 'impl ' + o[:1000]])
+        if not bad:
+            run.discharged += 1
+        n = sum(int(o.split()[0]) for o in io if o.split()[0].isdigit())
+        run.stream('c11/concurrent', n, n, False, '2-64 goroutines released from a barrier, each logging from its own statements (15 entry points round robin), fast and default mode; every reported location = runtime.Caller on the same line')
+    finally:
+        shutil.rmtree(tmp, ignore_errors=True)
+
+
 def check(run):
     run_matrix(run, 'c11/matrix')
+    run_concurrent(run)
     if run.tier == 'thorough':
         # the same matrix with inlining disabled
         binp = common.BUILD + '/implrun-noinline'
